@@ -9,7 +9,16 @@ fn main() {
     let args = Args::parse(&argv);
     vh::report::install_quiet_panic_hook();
     let mut rep = Report::new(&args);
-    if !vh::engines::dispatch(&args, &mut rep) {
+    // a panic that escapes an engine (outside the scopes in which the code under test is observed) ends the worker with exit code 65 and
+    // its message: the driver tells a harness fault (inconclusive) from a panic inside /repo (an observation) by the location
+    let ok = match std::panic::catch_unwind(std::panic::AssertUnwindSafe(|| vh::engines::dispatch(&args, &mut rep))) {
+        Ok(ok) => ok,
+        Err(_) => {
+            eprintln!("ESCAPED-PANIC {}", vh::report::take_panic());
+            std::process::exit(65);
+        }
+    };
+    if !ok {
         eprintln!("unknown engine {}", args.engine);
         std::process::exit(64);
     }
